@@ -26,14 +26,16 @@ def mk_record(spec):
             quals["citation"] = [(f.get("cite_fmt") or "[%d]") % c for c in f["cites"]]
         feats.append(SeqFeature(loc, type=f.get("type", "misc_feature"), qualifiers=quals))
     ann = {"topology": spec.get("topology", "circular"), "molecule_type": "DNA"}
+    ann.update(copy.deepcopy(spec.get("ann", {})))      # free-form annotations a GenBank/EMBL file may carry
     if "refs" in spec:
         refs = []
         for t in spec["refs"]:
             # "title" or "title|journal|start-end|comment": references may differ in any one field only
-            fields = (t.split("|") + ["", "", ""])[:4]
+            fields = (t.split("|") + ["", "", "", "", ""])[:6]     # title|journal|a-b|comment|authors|pubmed
             r = Reference()
             r.title = fields[0]
-            r.authors = "A. Author"
+            r.authors = fields[4] or "A. Author"
+            r.pubmed_id = fields[5]
             r.journal = fields[1] or "J. %s" % fields[0]
             if fields[2]:
                 a, b = fields[2].split("-")
